@@ -196,6 +196,8 @@ class GenEv:
                 for x in t["xs"]:
                     out += self.gen(x, env)
                 return self.fuse(out, env)
+            if fp == CF + "sequence::pair" and len(args) == 2:
+                return self.fuse(self.gen(args[0], env) + self.gen(args[1], env), env)
             if fp == CF + "multi::all":
                 return self.repeat_iter(args[0], env)
             if fp == CF + "multi::many_ref":
